@@ -26,12 +26,20 @@ cp $demofile $W/$demo
 if go test -vet=off -count=1 -run "$run" $pkg >/tmp/seed_mut.log 2>&1; then echo "REJECT: demo passes with the patch"; exit 3; fi
 rm -f $W/$demo
 echo "CONFIRMED $pid/$mk: compiles, suite passes, demo fails with patch and passes without"
-# run the checks against the patched scratch tree (never /repo itself here; manifest checks use /repo)
+# run the checks against the clean and the patched scratch tree; only NEW violations count
 cd /verif
-fired=""
-for id in $(./bin/rlcheck list); do
-  o=$(./bin/rlcheck check $id --repo $W --verif /tmp/verif-seed 2>&1); rc=$?
-  if [ $rc -ne 0 ]; then fired="$fired $id"; echo "  --- $id fires:"; echo "$o" | grep "violated:\|undecided:" | cut -c1-260 | head -4; fi
-done
-if [ -z "$fired" ]; then echo "RESULT $pid/$mk: MISSED (no check fires)"; else echo "RESULT $pid/$mk: DETECTED by$fired"; fi
+viol() { # prints "id rule construct" lines for every violated/undecided obligation
+  for id in $(./bin/rlcheck list); do
+    ./bin/rlcheck check $id --repo $W --verif /tmp/verif-seed 2>&1 | grep "violated:\|undecided:" | sed "s/^ *[a-z]*: rule=\([^ ]*\) construct=\(.*\) at [^ ]*: .*/$id \1 \2/"
+  done | sort -u
+}
+(cd $W && git reset -q --hard && git clean -fdq)
+viol > /tmp/seed_base.txt
+(cd $W && git apply $d/patch.diff)
+viol > /tmp/seed_mut.txt
+new=$(comm -13 /tmp/seed_base.txt /tmp/seed_mut.txt)
+if [ -z "$new" ]; then echo "RESULT $pid/$mk: MISSED (no check fires)"; else
+  echo "$new" | sed 's/^/  new: rule=/' | sed 's/rule=\([A-Z0-9]*\) /[\1] rule=/' | cut -c1-240 | head -8
+  echo "RESULT $pid/$mk: DETECTED by $(echo "$new" | cut -d' ' -f1 | sort -u | paste -sd' ')"
+fi
 cd $W && git reset -q --hard && git clean -fdq
